@@ -58,6 +58,8 @@ def wrong_types(demanded):
         if demanded == "object" and t == "object":
             continue
         out.append((t, v))
+    if demanded == "object":     # not objects, though a membership test for a JWK member name succeeds on them
+        out += [("str:kty", "kty"), ("list:kty", ["kty", "oct"])]
     return out
 
 
